@@ -282,6 +282,7 @@ def op_grid(orig, r, op):
     def add(res, x, xo):
         # a time shared by two control points is a jump: the curve is two-valued there (C08), not compared
         if ot.count(xo) >= 2:
+            rows.append([x, sf(res.value_at(x / TICK)), sf(orig.value_at(xo / TICK)), "jump"])
             return
         rows.append([x, sf(res.value_at(x / TICK)), sf(orig.value_at(xo / TICK))])
 
@@ -357,7 +358,9 @@ def run(case):
                     ot = [ticks(x) for x in orig.absolute_time_tuple]
                     for x in grid_points(0, d, pt, n=12):
                         if ot.count(start + x) >= 2:
-                            continue  # jump instant: two-valued
+                            # jump instant: two-valued
+                            rows.append([start + x, sf(part.value_at(x / TICK)), sf(orig.value_at((start + x) / TICK)), "jump"])
+                            continue
                         rows.append([start + x, sf(part.value_at(x / TICK)), sf(orig.value_at((start + x) / TICK))])
                     start += d
                 out.append(["grid"] + rows)
